@@ -12,6 +12,7 @@ import (
 	"verifh/srvh"
 
 	"github.com/cloudwego/hertz/pkg/app"
+	"github.com/cloudwego/hertz/pkg/common/config"
 )
 
 // Part S: the same reference through the real HTTP/1 server and router. The engine has the routes "/" and
@@ -25,6 +26,8 @@ type SCase struct {
 	Version string `json:"version"` // " HTTP/1.1" | " HTTP/1.0" | ""
 	NoHost  bool   `json:"no_host,omitempty"`
 	Server  bool   `json:"server"`
+	// Raw: the engine routes on the raw path (UseRawPath); dot segments must still not reach a route as parameter text
+	Raw bool `json:"raw,omitempty"`
 }
 
 type srvWorker struct {
@@ -32,8 +35,8 @@ type srvWorker struct {
 	ran []string
 }
 
-func newSrvWorker() *srvWorker {
-	w := &srvWorker{s: srvh.New(srvh.Opts{})}
+func newSrvWorker(raw bool) *srvWorker {
+	w := &srvWorker{s: srvh.New(srvh.Opts{Mods: []func(o *config.Options){func(o *config.Options) { o.UseRawPath = raw }}})}
 	rec := func(kind string) app.HandlerFunc {
 		return func(c context.Context, ctx *app.RequestContext) {
 			w.ran = append(w.ran, kind+"|"+string(ctx.Path()))
@@ -42,6 +45,7 @@ func newSrvWorker() *srvWorker {
 	}
 	w.s.E.GET("/", rec("root"))
 	w.s.E.GET("/pub/*x", rec("pub"))
+	w.s.E.GET("/dir/:n/", rec("dir")) // registered with the trailing slash: /dir/<n> is redirected to it
 	w.s.E.NoRoute(rec("noroute"))
 	w.s.Start()
 	return w
@@ -65,26 +69,45 @@ func (w *srvWorker) one(c *mc.Ctx, cs SCase) {
 		return
 	}
 	c.Distinct("outcomes", fmt.Sprintf("srv|%d|%d", ms[0].Status, len(w.ran)))
+	want := RefPath(cs.Target)
 	if len(w.ran) == 0 {
 		if ms[0].Status < 300 {
 			c.Violate("server-2xx-without-handler", fmt.Sprintf("input %q: status %d although no handler ran", in, ms[0].Status), cs)
 		}
+		if loc, ok := ms[0].Get("Location"); ok && (ms[0].Status == 301 || ms[0].Status == 308) {
+			// a redirect that adds or removes the trailing slash names the path of the request, decoded once - not a path
+			// that a second decoding and resolution has moved somewhere else
+			if i := strings.Index(loc, "://"); i >= 0 {
+				if j := strings.IndexByte(loc[i+3:], '/'); j >= 0 {
+					loc = loc[i+3+j:]
+				}
+			}
+			// (compared after the normalisation a client's next request undergoes: "/dir/./" is "/dir/")
+			q := strings.ReplaceAll(want, "%", "%25")
+			if got := RefPath(loc); got != RefPath(q+"/") && got != RefPath(strings.TrimSuffix(q, "/")) {
+				c.Violate("server-redirect-to-another-path|raw="+fmt.Sprint(cs.Raw), fmt.Sprintf("input %q: redirected (%d) to %q, which names the path %q; the request's path, decoded once and resolved, is %q", in, ms[0].Status, loc, got, want), cs)
+			}
+		}
 		return
 	}
-	want := RefPath(cs.Target)
+	if cs.Raw && strings.Contains(cs.Target, "//") {
+		return // routing on the raw path keeps empty segments (RemoveExtraSlash is the option that merges them)
+	}
 	kind := "noroute"
 	switch {
 	case want == "/":
 		kind = "root"
 	case strings.HasPrefix(want, "/pub/"):
 		kind = "pub"
+	case strings.HasPrefix(want, "/dir/") && strings.HasSuffix(want, "/") && strings.Count(want, "/") == 3 && len(want) > len("/dir//"):
+		kind = "dir"
 	}
 	if len(w.ran) != 1 || w.ran[0] != kind+"|"+want {
-		c.Violate("server-routes-on-another-path|"+strings.TrimSpace(cs.Version), fmt.Sprintf("input %q: handlers run (kind|path seen) = %q; the target's path, decoded once and resolved, is %q: expected [%q] or a refusal without any handler", in, w.ran, want, kind+"|"+want), cs)
+		c.Violate("server-routes-on-another-path|"+strings.TrimSpace(cs.Version)+"|raw="+fmt.Sprint(cs.Raw), fmt.Sprintf("input %q: handlers run (kind|path seen) = %q; the target's path, decoded once and resolved, is %q: expected [%q] or a refusal without any handler", in, w.ran, want, kind+"|"+want), cs)
 	}
 }
 
-var srvAlpha = []string{"/", "pub", "a", "..", "%2e", "%09", "\t", "\x01", "\x7f", "\x0b"}
+var srvAlpha = []string{"/", "pub", "a", "..", "%2e", "%09", "\t", "\x01", "\x7f", "\x0b", "dir", "%252e"}
 
 func serverPart(c *mc.Ctx) {
 	n := 3
@@ -97,14 +120,16 @@ func serverPart(c *mc.Ctx) {
 	}
 	var mu sync.Mutex
 	var total int64
-	c.ParallelFor(len(firsts), func(i int) {
-		w := newSrvWorker()
+	c.ParallelFor(2*len(firsts), func(i int) {
+		raw := i >= len(firsts)
+		i %= len(firsts)
+		w := newSrvWorker(raw)
 		var cnt int64
 		var rec func(s string, d int)
 		rec = func(s string, d int) {
 			for _, v := range []string{" HTTP/1.1", " HTTP/1.0", ""} {
 				for _, nh := range []bool{false, true} {
-					w.one(c, SCase{Target: "/" + s, Version: v, NoHost: nh, Server: true})
+					w.one(c, SCase{Target: "/" + s, Version: v, NoHost: nh, Server: true, Raw: raw})
 					cnt++
 				}
 			}
